@@ -11,11 +11,15 @@ DecodeOk(e) ==
             /\ e.more /\ e.err = ""
             /\ e.g = w.g /\ e.id = w.id /\ e.name = w.name /\ ValOk(e, w)
        ELSE ~e.more /\ e.err = ""
+DecodeGeomOk(e) == /\ rstate = "open"
+                   /\ IF rrow < Len(file) THEN e.more /\ e.err = "" /\ e.g = file[rrow + 1].g
+                      ELSE ~e.more /\ e.err = ""
 Ok(e) == CASE e.ev = "create" -> e.out = "ok" /\ wstate = "none"
            [] e.ev = "encode" -> e.out = "ok" /\ wstate = "open"
            [] e.ev = "close" -> e.out = "ok" /\ wstate = "open"
            [] e.ev = "open" -> e.out = "ok" /\ wstate = "closed"
            [] e.ev = "decode" -> e.out = "ok" /\ DecodeOk(e)
+           [] e.ev = "decodeg" -> e.out = "ok" /\ DecodeGeomOk(e)
            [] OTHER -> FALSE
 Apply(e) ==
     CASE e.ev = "create" -> kind' = e.kind /\ api' = e.api /\ wstate' = "open" /\ UNCHANGED <<file, rrow, rstate, out, nenc>>
@@ -23,6 +27,7 @@ Apply(e) ==
       [] e.ev = "close" -> CloseW
       [] e.ev = "open" -> OpenR
       [] e.ev = "decode" -> DecodeRow
+      [] e.ev = "decodeg" -> DecodeGeom
 Reset(e) == /\ kind' = "none" /\ api' = "none" /\ file' = <<>> /\ wstate' = "none" /\ rrow' = 0 /\ rstate' = "none"
             /\ out' = [more |-> FALSE, r |-> 0] /\ nenc' = 0
 Keep == UNCHANGED vars
